@@ -226,15 +226,37 @@ void vf_run_case(vf::Ctx& ctx, long idx)
     const int cls = corpus ? HARD[r.range(0, 3)] : CLEAN[r.range(0, 2)];
     std::vector<int> decoupled;
     MatXd A = gen(r, n, cls, decoupled);
+    // wrapper storage options (exploration cases; from the case number): default, or Upper with only the upper triangle meaningful / stored
+    const bool upper = !corpus && ((idx / 2) % 2 == 1);
+    ctx.count(upper ? "wrapper_options/Upper" : "wrapper_options/default");
     if (idx % 2 == 0)
     {
-        Spectra::DenseSymMatProd<T> op(A);
-        run(ctx, A, op, "DenseSymMatProd", cls, decoupled, tag);
+        if (upper)
+        {
+            MatXd Au = A;
+            for (int j = 0; j < n; j++) for (int i = j + 1; i < n; i++) Au(i, j) = 7.0;
+            Spectra::DenseSymMatProd<T, Eigen::Upper> op(Au);
+            run(ctx, A, op, "DenseSymMatProd<Upper>", cls, decoupled, tag);
+        }
+        else
+        {
+            Spectra::DenseSymMatProd<T> op(A);
+            run(ctx, A, op, "DenseSymMatProd", cls, decoupled, tag);
+        }
     }
     else
     {
-        Eigen::SparseMatrix<T> S = A.sparseView();
-        Spectra::SparseSymMatProd<T> op(S);
-        run(ctx, A, op, "SparseSymMatProd", cls, decoupled, tag);
+        if (upper)
+        {
+            Eigen::SparseMatrix<T> S = Eigen::SparseMatrix<T>(A.sparseView()).triangularView<Eigen::Upper>();
+            Spectra::SparseSymMatProd<T, Eigen::Upper> op(S);
+            run(ctx, A, op, "SparseSymMatProd<Upper>", cls, decoupled, tag);
+        }
+        else
+        {
+            Eigen::SparseMatrix<T> S = A.sparseView();
+            Spectra::SparseSymMatProd<T> op(S);
+            run(ctx, A, op, "SparseSymMatProd", cls, decoupled, tag);
+        }
     }
 }
